@@ -4,7 +4,10 @@ import schedcommon as sc
 import schedupper
 
 THEOREMS = {"C21.v": ["C21_solo_terminates", "C21_thread_ok_invariant", "C21_reachable_solo_terminates",
-                      "C21_retry_loops_bounded", "C21_wait_only_PP3", "C21_known_wait"]}
+                      "C21_retry_loops_bounded", "C21_wait_only_PP3", "C21_known_wait"],
+            # the whole allocator (machine M2 = UpperMachine.v, embedding M1)
+            "C21u.v": ["C21u_solo_terminates", "C21u_thread_ok_invariant", "C21u_reachable_solo_terminates",
+                       "C21u_retry_bounded", "C21u_wait_only_PP3", "C21u_known_wait"]}
 # Progress.v: bound g = thuge*(5*rows+7) + 4*rows + 15 ; default geometry (thuge 4, rows 8) = 235.  The harness
 # budget is the bound of the largest geometry used (thuge 8, rows 8 -> 423); the driver checks each SOLO run
 # against the bound of its own geometry.
@@ -26,8 +29,11 @@ def run(ctx):
         "contents; every CAS-retry loop is left after at most two solo steps; the only step that can end in the wait panic is "
         "the bounded spin of partial_put_huge (known finding, witness C21_known_wait). Tied to the code by freezing all other "
         "real threads at every point of explored schedules and running each in-flight call alone under the step budget, every "
-        "step replayed on the extracted machine. The upper allocator's own retry loops (tree entries, local slots) are not part "
-        "of M1: for them only this exploration applies.",
+        "step replayed on the extracted machine. The same is proved for the whole allocator on machine M2 (UpperMachine.v, which "
+        "embeds M1): from every reachable state a call of LLFree::get/put/drain/change_tree running alone settles within "
+        "ubound g u steps (a function of the geometry, the number of trees and the number of local slots, not of memory contents), "
+        "every CAS-retry site on tree entries and local slots is left after at most two solo steps, and the wait panic can only "
+        "come from the embedded lower spin.",
         "freeze mode: after every prefix of base schedules (round-robin and PCT) of every built-in scenario, every in-flight "
         "call is run alone to completion; evaluations = steps replayed; distinct = distinct schedules; non-trivial = freeze "
         "point in the middle of another thread's call",
